@@ -24,6 +24,7 @@
    through the driver; whether networkx's loops span the cycle space (hypothesis of mesh_iff_laws) is judged by the
    Lean `checkBasis` on a certificate the driver finds.
 """
+import json
 import os
 import sys
 import time
@@ -418,9 +419,10 @@ def parse_form(s):
 # --------------------------------------------------------------------------- the check
 
 def run(chk, replay=None):
-    broken = chk.lean(['Lcapy/Props/C15.lean', 'Lcapy/Props/C15SS.lean', 'Lcapy/Props/C15Mesh.lean'],
+    broken = chk.lean(['Lcapy/Props/C15.lean', 'Lcapy/Props/C15SS.lean', 'Lcapy/Props/C15Mesh.lean',
+                       'Lcapy/Props/NonVacuityC15.lean'],
                       helper_files=['Lcapy/Proofs/Formulations.lean', 'Lcapy/Proofs/Realisations.lean',
-                                    'Lcapy/Proofs/StateSpaceMaker.lean', 'Lcapy/Proofs/StateSpaceTime.lean',
+                                    'Lcapy/Proofs/StateSpaceMaker.lean', 'Lcapy/Proofs/StateSpaceTime.lean', 'Lcapy/Proofs/StateExists.lean',
                                     'Lcapy/Model/StateSpaceMaker.lean', 'Lcapy/Proofs/MeshComplete.lean',
                                     'Lcapy/Model/MeshComplete.lean',
                                     'Lcapy/Model/Formulations.lean', 'Lcapy/Model/Realisations.lean',
@@ -533,6 +535,15 @@ def run(chk, replay=None):
             except NotExact as ex:
                 chk.count('degenerate', 'nodal-equation:%s' % ex)
                 chk.case(('nodal', route, net.key(), node), False)
+                if str(ex) == 'zoo' and model is not None and node in model:
+                    # error branch (0-ohm resistor, inductor at dc): where the code prints zoo the model divides by zero
+                    chk.coverage['correspondence']['compared'] += 1
+                    und = 'undef' in str(model[node])
+                    chk.count('refusal', 'nodal lcapy:zoo model:%s' % ('undefined' if und else 'finite'))
+                    if not und:
+                        chk.coverage['correspondence']['disagreements'] += 1
+                        disagreements.append({'what': 'nodal equation', 'netlist': net.lines(), 'analysis': net.model_analysis(),
+                                              'node': node, 'lcapy': 'zoo', 'model': model[node]})
                 continue
             except Exception as ex:   # noqa
                 chk.count('lcapy-error', 'nodal-equation:%s' % type(ex).__name__)
@@ -885,6 +896,9 @@ def run(chk, replay=None):
         Net([('V1', 'V', 1, 0, Fraction(6), None, 'step'), ('R1', 'R', 1, 2, Fraction(3), None, None),
              ('R2', 'R', 1, 3, Fraction(5), None, None), ('R3', 'R', 2, 0, Fraction(7), None, None),
              ('R4', 'R', 3, 0, Fraction(2), None, None), ('R5', 'R', 2, 3, Fraction(4), None, None)], 'lap', Fraction(2)),
+        # error branch: a 0-ohm resistor (excluded by NodalDefined: R != 0) -- the code prints zoo, the model is undefined
+        Net([('V1', 'V', 1, 0, Fraction(6), None, 'step'), ('R1', 'R', 1, 2, Fraction(3), None, None),
+             ('R2', 'R', 2, 3, Fraction(0), None, None), ('R3', 'R', 3, 0, Fraction(5), None, None)], 'lap', Fraction(2)),
         # ac sources with a phase: the phasor of A cos(wt + phi) is A exp(j phi)
         Net([('I1', 'I', 1, 0, Fraction(2), None, 'ac:4'), ('R1', 'R', 1, 0, Fraction(5), None, None),
              ('R2', 'R', 1, 2, Fraction(2), None, None), ('C1', 'C', 2, 0, Fraction(4), None, None)], 'ac', Fraction(3)),
@@ -1146,10 +1160,13 @@ def run(chk, replay=None):
         p = sym.Poly(sym.prod([(x - r) for r in roots]), x)
         return [c for c in p.all_coeffs()]
 
-    def check_tf(dom, form, b, a, origin, symbolic=False):
+    def check_tf(dom, form, b, a, origin, symbolic=False, via='expr'):
+        """via 'expr': H.state_space(form) of the rational expression b/a (the code hands from_ba_* the cancelled, monic
+        H.b / H.a);  via 'lists': StateSpace / DTStateSpace.from_transfer_function_coeffs(b, a, form) with the RAW
+        coefficient lists (non-monic, bi-proper, symbolic): the normalisation by a[0] is then the code's own"""
         var = lcapy.s if dom == 's' else lcapy.z
         x = var.sympy
-        chk.count('formulation', 'tf-%s-%s' % (dom, form))
+        chk.count('formulation', 'tf-%s-%s%s' % (dom, form, '' if via == 'expr' else ':lists'))
         chk.count('tf-degree', 'deg %d (num len %d) %s' % (len(a) - 1, len(b), origin))
         num = sum(c * x ** (len(b) - 1 - i) for i, c in enumerate(b))
         den = sum(c * x ** (len(a) - 1 - i) for i, c in enumerate(a))
@@ -1161,15 +1178,20 @@ def run(chk, replay=None):
                 as_ = sym.symbols('a0:%d' % len(a))
                 numS = sum(c * x ** (len(b) - 1 - i) for i, c in enumerate(bs))
                 denS = sum(c * x ** (len(a) - 1 - i) for i, c in enumerate(as_))
-                H = lcapy.expr(numS / denS)
-                H = H(var)
                 subs = {str(k): v for k, v in list(zip(bs, b)) + list(zip(as_, a))}
-            else:
+                if via == 'expr':
+                    H = lcapy.expr(numS / denS)
+                    H = H(var)
+            elif via == 'expr':
                 H = lcapy.expr(num / den)(var)
-            ss = H.state_space(form)
+            if via == 'expr':
+                ss = H.state_space(form)
+            else:
+                cls = lcapy.StateSpace if dom == 's' else lcapy.DTStateSpace
+                ss = cls.from_transfer_function_coeffs(list(bs) if symbolic else list(b), list(as_) if symbolic else list(a), form)
         except Exception as e:   # noqa
             chk.count('lcapy-error', 'tf-%s:%s:%s' % (form, type(e).__name__, str(e)[:40]))
-            chk.case(('tf', dom, form, tuple(b), tuple(a), symbolic), False)
+            chk.case(('tf', via, dom, form, tuple(b), tuple(a), symbolic), False)
             return
         try:
             n = ss.Nx
@@ -1179,19 +1201,20 @@ def run(chk, replay=None):
             D = gq(sval(ss.D.sympy[0, 0], subs))
         except NotExact as e:
             chk.count('degenerate', 'tf-matrices:%s' % e)
-            chk.case(('tf', dom, form, tuple(b), tuple(a), symbolic), False)
+            chk.case(('tf', via, dom, form, tuple(b), tuple(a), symbolic), False)
             return
-        chk.case(('tf', dom, form, tuple(b), tuple(a), symbolic), True)
+        chk.case(('tf', via, dom, form, tuple(b), tuple(a), symbolic), True)
         bq = ' '.join(gq(v) for v in b)
         aq = ' '.join(gq(v) for v in a)
-        inp = {'domain': dom, 'form': form, 'b': [str(v) for v in b], 'a': [str(v) for v in a], 'origin': origin, 'symbolic': symbolic}
+        inp = {'domain': dom, 'form': form, 'b': [str(v) for v in b], 'a': [str(v) for v in a], 'origin': origin, 'symbolic': symbolic, 'via': via}
         # what the code handed to from_ba_*: H.b, H.a  (cancellation may have shortened them)
         # correspondence
         if form in ('CCF', 'OCF'):
             r = drv.ask1('ss.form %s || %s || %s' % (form.lower(), bq, aq))
             mine = '%d ; %s ; %s ; %s ; %s' % (n, ' '.join(A), ' '.join(B), ' '.join(C), D)
-            if not r.startswith('error') and not symbolic:
+            if not r.startswith('error') and not symbolic and via == 'expr':
                 # the code works on the cancelled, monic-normalised H.b / H.a; ask the model with those
+                # (via 'lists' the model is asked with the raw lists: its `prep` is the code's normalisation by a[0])
                 try:
                     hb = ' '.join(gq(v.sympy) for v in H.b)
                     ha = ' '.join(gq(v.sympy) for v in H.a)
@@ -1267,7 +1290,8 @@ def run(chk, replay=None):
     if rep is not None:
         inp = rep.get('input') or {}
         if 'form' in inp and 'b' in inp:
-            check_tf(inp['domain'], inp['form'], [sym.sympify(v) for v in inp['b']], [sym.sympify(v) for v in inp['a']], 'replay')
+            check_tf(inp['domain'], inp['form'], [sym.sympify(v) for v in inp['b']], [sym.sympify(v) for v in inp['a']], 'replay',
+                     symbolic=bool(inp.get('symbolic')), via=inp.get('via', 'expr'))
         degs = []
     # fixed cases first: b and a share the root -1 (finding C15-j); a genuine bi-proper function
     if rep is None:
@@ -1285,6 +1309,15 @@ def run(chk, replay=None):
                 b = rand_coeffs(nb)
                 for form in ('CCF', 'OCF'):
                     check_tf(dom, form, [srat(v) for v in b], [srat(v) for v in a], 'numeric')
+                # raw coefficient lists: non-monic denominator (leading coefficient never 1), every second one bi-proper
+                al = list(a)
+                if al[0] == 1:
+                    al[0] = Fraction(rng.choice([2, 3, -2, 5]), rng.choice([1, 3]))
+                bl = rand_coeffs(deg + 1) if rep % 2 == 0 else list(b)
+                for form in ('CCF', 'OCF'):
+                    check_tf(dom, form, [srat(v) for v in bl], [srat(v) for v in al], 'lists-nonmonic', via='lists')
+                    if deg <= 3 and rep == 0:
+                        check_tf(dom, form, [srat(v) for v in bl], [srat(v) for v in al], 'lists-symbolic', symbolic=True, via='lists')
                 if deg <= 3 and (rep == 0):
                     for form in ('CCF', 'OCF'):
                         check_tf(dom, form, [srat(v) for v in b], [srat(v) for v in a], 'symbolic', symbolic=True)
@@ -1305,6 +1338,11 @@ def run(chk, replay=None):
                 nbd = rng.randint(1, deg + 1) if rep % 2 == 0 else deg + 1
                 bd = [srat(v) for v in rand_coeffs(nbd)]
                 check_tf(dom, 'DCF', bd, ad, 'distinct-exact-poles')
+                if rep % 2 == 0:
+                    lead2 = srat(Fraction(rng.choice([2, 3, -2, 5]), rng.choice([1, 3])))
+                    ad2 = [sym.expand(lead2 * c) for c in poly_from_roots(roots)]
+                    bd2 = [srat(v) for v in rand_coeffs(deg + 1 if rep % 4 == 0 else nbd)]
+                    check_tf(dom, 'DCF', bd2, ad2, 'lists-nonmonic', via='lists')
     chk.coverage['time_tf_s'] = round(time.time() - t2, 1)
 
     # ------------------------------------------------------------------ classification
